@@ -292,5 +292,7 @@ HooksBound == Len(hooks) <= 2
 BV1 == {L1}
 NamesPQ == <<"p", "q">>
 BV12 == {L1, L2}
+\* with a literal that the adapter may concretise as a mutable container (the consumer mutates what it receives)
+BV123 == {L1, L2, <<"lit", "3">>, <<"list", <<L1, L2>>>>}
 Names6 == <<"k", "p", "q", "self", "value", "z">>
 =============================================================================
